@@ -223,7 +223,7 @@ def run_batch(t):
         sc = O.Scenario(ID, '%s len=%d path#%d' % (t['name'], n, len(out)), tu, s, decisions=dec, timeout=t['timeout'], dag=g, shadow_override=sh)
         for k in (0, 1, 5):
             sc.int_eq('batch size == sequence length (order %d)' % k, 'B%d.n' % k, n)
-            for i in range(n):
+            for i in range(min(n, g.ints.get('B%d.n' % k, 0))):
                 for d in range(dim):
                     sc.uf_eq('batch[%d] order %d [%d] == pointwise' % (i, k, d), 'B%d.%d.%d' % (k, i, d), 'p%d_%d.%d' % (k, i, d))
                     if k == 5:
